@@ -243,6 +243,8 @@ func ruleFillGuards(w *World, r *Report, pfx string) {
 				return
 			}
 			// any write (meta call / flush) on the path must be preceded by the atom width >= 0
+			bracketsOK := true
+			var subtracted map[int64]bool
 			firstWrite := -1
 			for _, ev := range p.Events {
 				if c, ok := ev.In.(*ssa.Call); ok && c.Call.StaticCallee() == nil && !c.Call.IsInvoke() {
@@ -256,12 +258,110 @@ func ruleFillGuards(w *World, r *Report, pfx string) {
 				if !ok || sub.Op != token.SUB {
 					return false
 				}
-				c, ok := sub.X.(*ssa.Call)
-				return ok && c.Call.StaticCallee() != nil && c.Call.StaticCallee().Name() == "CheckRequestedWidth"
+				c, ok := p.stripR(Val{sub.X, v.F, v.E}).V.(*ssa.Call)
+				if !ok || c.Call.StaticCallee() == nil || c.Call.StaticCallee().Name() != "CheckRequestedWidth" {
+					return false
+				}
+				// what is taken off the allotted width: the widths of exactly the components written
+				// around the body (the brackets) on this path
+				var terms []ssa.Value
+				var flat func(x Val)
+				flat = func(x Val) {
+					x = p.stripR(x)
+					if add, ok := x.V.(*ssa.BinOp); ok && add.Op == token.ADD {
+						flat(Val{add.X, x.F, x.E})
+						flat(Val{add.Y, x.F, x.E})
+						return
+					}
+					terms = append(terms, x.V)
+				}
+				flat(Val{sub.Y, v.F, v.E})
+				sub2idx := map[int64]bool{}
+				for _, t := range terms {
+					f, ok := loadedField(t)
+					if !ok || f.Name != "width" || f.Owner != "mpb.component" {
+						bracketsOK = false
+						return true
+					}
+					ia, ok := f.Base.(*ssa.IndexAddr)
+					k, okK := int64(0), false
+					if ok {
+						k, okK = constInt(ia.Index)
+					}
+					if !okK {
+						// a local copy of the component (`lbound := s.components[iLbound]`)
+						if ld, ok := w.origin(f.Base).(*ssa.UnOp); ok {
+							if ia2, ok := ld.X.(*ssa.IndexAddr); ok {
+								k, okK = constInt(ia2.Index)
+							}
+						} else if al, ok := f.Base.(*ssa.Alloc); ok {
+							for _, sv := range w.cellStores(al) {
+								if ld, ok := sv.(*ssa.UnOp); ok {
+									if ia2, ok := ld.X.(*ssa.IndexAddr); ok {
+										k, okK = constInt(ia2.Index)
+									}
+								}
+							}
+						}
+					}
+					if !okK {
+						bracketsOK = false
+						return true
+					}
+					sub2idx[k] = true
+				}
+				subtracted = sub2idx
+				return true
 			}
 			if firstWrite >= 0 {
 				if !p.hasCmp(firstWrite, token.GEQ, isInner, isConstInt(0)) {
 					bad = "the filler writes on a path without the atom innerWidth >= 0 (brackets wider than the allotted width)"
+				}
+				// the components written directly (not by a fill loop): meta[k](w, components[k].bytes)
+				direct := map[int64]bool{}
+				for _, ev := range p.Events {
+					c, ok := ev.In.(*ssa.Call)
+					if !ok || c.Call.StaticCallee() != nil || c.Call.IsInvoke() || len(c.Call.Args) != 2 {
+						continue
+					}
+					if _, isBuiltin := c.Call.Value.(*ssa.Builtin); isBuiltin {
+						continue
+					}
+					bf, ok := loadedField(p.stripR(p.val(ev, c.Call.Args[1])).V)
+					if !ok || bf.Name != "bytes" || bf.Owner != "mpb.component" {
+						continue
+					}
+					if ia, ok := bf.Base.(*ssa.IndexAddr); ok {
+						if k, ok := constInt(ia.Index); ok {
+							direct[k] = true
+						}
+					} else if ld, ok := w.origin(bf.Base).(*ssa.UnOp); ok {
+						if ia2, ok := ld.X.(*ssa.IndexAddr); ok {
+							if k, ok := constInt(ia2.Index); ok {
+								direct[k] = true
+							}
+						}
+					} else if al, ok := bf.Base.(*ssa.Alloc); ok {
+						for _, sv := range w.cellStores(al) {
+							if ld, ok := sv.(*ssa.UnOp); ok {
+								if ia2, ok := ld.X.(*ssa.IndexAddr); ok {
+									if k, ok := constInt(ia2.Index); ok {
+										direct[k] = true
+									}
+								}
+							}
+						}
+					}
+				}
+				if bad == "" && subtracted != nil && p.Exit == "return" && len(direct) >= 2 {
+					for k := range direct {
+						if !subtracted[k] {
+							bad = fmt.Sprintf("component #%d is written around the body but its width is not taken off the allotted width: the row is that much wider than allowed", k)
+						}
+					}
+				}
+				if !bracketsOK {
+					bad = orStr(bad, "the amount taken off the allotted width is not a sum of component widths")
 				}
 			} else if p.hasCmp(-1, token.LSS, isInner, isConstInt(0)) {
 				sawNeg = true
